@@ -21,7 +21,7 @@ DTYPES = ['int32', 'int64', 'uint16', 'uint32']
 REQ_POOL = [[], [0], [1, 3], [7, 0], [5], [3, 5, 0], [7, 7, 1], [2, 9]]
 RULE = (
     "(vec) exhaustive: every cluster vector over the gapped alphabet {0,1,3,7} up to length 6 "
-    "(quick) / 8 (thorough) x dtypes int32/int64/uint16/uint32; each case exercises "
+    "(quick) / 9 (thorough) x dtypes int32/int64/uint16/uint32; each case exercises "
     "_spikes_per_cluster (with and without a gapped spike-id vector), _spikes_in_clusters for a "
     "fixed pool of requested lists (empty, unknown ids, unsorted, repeated), _unique, _index_of "
     "against unsorted lookups, _flatten_per_cluster, grouped_mean (1-D and 2-D values). "
@@ -63,8 +63,8 @@ def drivers(tier):
     th = tier == 'thorough'
     ds = [
         dict(kind='enum', name='vec', exhaustive=True,
-             bound='alphabet {0,1,3,7}, length<=%d, 4 dtypes' % (8 if th else 6),
-             cases=lambda: _vec_cases(8 if th else 6)),
+             bound='alphabet {0,1,3,7}, length<=%d, 4 dtypes' % (9 if th else 6),
+             cases=lambda: _vec_cases(9 if th else 6)),
         dict(kind='hyp', name='rand', strategy=_rand_case(), examples=150000 if th else 10000),
     ]
     try:
